@@ -67,7 +67,25 @@ func VerifRun_C16e() {
 		src += bad + "\n"
 		badLine = len(c16eLines) + 1
 	}
-	src += "local Player = {}\nreturn Player\n"
+	// the malformed line inside the class block (0), or the class block intact and the malformed line in a
+	// block of its own above another declaration: alone (1), or below free-text comment lines (2)
+	layout := verifConcretize(verifRange("layout", 0, 2))
+	if layout > 0 {
+		src = ""
+		for _, l := range c16eLines {
+			src += l + "\n"
+		}
+		src += "local Player = {}\n\n"
+		badLine = len(c16eLines) + 3
+		if layout == 2 {
+			src += "-- how much it costs\n-- (in coins)\n"
+			badLine += 2
+		}
+		src += bad + "\nPlayer.cost = 1\n"
+		src += "return Player\n"
+	} else {
+		src += "local Player = {}\nreturn Player\n"
+	}
 	verifVFSPut(model, []byte(src))
 	verifVFSPut(mainF, []byte("local P = require(\"model\")\nprint(P)\n"))
 	p := CreateAllProject([]string{model, mainF}, nil, nil)
